@@ -22,6 +22,7 @@ type CliWorld struct {
 	LF  *SimLoggerFactory
 
 	mu       sync.Mutex
+	started  chan struct{}
 	Cli      *turn.Client
 	cliSock  *UDPSock
 	cliAddr  *net.UDPAddr
@@ -142,8 +143,11 @@ func NewCliWorld(k *Kernel, p *Plan) *CliWorld {
 		resp: map[int]*respRec{}, tx: map[[12]byte][]int64{}, perms: map[string]bool{}, chans: map[uint16]string{},
 		permDelivered: map[string]int64{}, chanDelivered: map[uint16]chanDel{}}
 	w.Net = NewNet(k)
-	w.Net.Obs = w
+	if !k.Free {
+		w.Net.Obs = w // free-running race pass: no observer (its lock would order the library's goroutines)
+	}
 	w.LF = NewLoggerFactory(k, p.Expect != nil)
+	w.started = make(chan struct{})
 	return w
 }
 
@@ -222,6 +226,10 @@ func (w *CliWorld) viol(prop, class string, key map[string]string, format string
 }
 
 func (w *CliWorld) lib(f func()) {
+	if w.K.Free {
+		go f() // nothing shared with the harness: no counter, no lock
+		return
+	}
 	w.mu.Lock()
 	w.libN++
 	w.mu.Unlock()
@@ -279,6 +287,7 @@ func (w *CliWorld) start() {
 		w.mu.Lock()
 		w.Cli = c
 		w.mu.Unlock()
+		close(w.started)
 	})
 }
 
@@ -437,7 +446,7 @@ func (w *CliWorld) scheduleNext() {
 	}
 	op := &w.P.Ops[w.opIdx]
 	w.opIdx++
-	at := w.prev + op.At.GapNS
+	at := w.prev + freeGap(w.K, w.P, w.opIdx-1, op.At.GapNS)
 	if at < w.K.Now() {
 		at = w.K.Now()
 	}
@@ -451,6 +460,11 @@ func (w *CliWorld) scheduleNext() {
 }
 
 func (w *CliWorld) call(op *Op, f func(c *callRec)) {
+	if w.K.Free {
+		rec := &callRec{Op: op, Kind: op.Kind}
+		go f(rec) // results are not judged in the race pass
+		return
+	}
 	rec := &callRec{Op: op, Kind: op.Kind, TStart: w.K.Now()}
 	w.mu.Lock()
 	w.calls = append(w.calls, rec)
@@ -489,8 +503,10 @@ func (w *CliWorld) exec(op *Op) {
 }
 
 func (w *CliWorld) finish() {
-	w.checkTransactions(true)
-	w.checkRelay(true)
+	if !w.K.Free {
+		w.checkTransactions(true)
+		w.checkRelay(true)
+	}
 	w.mu.Lock()
 	cli, relay, ta := w.Cli, w.relay, w.tcpAlloc
 	w.mu.Unlock()
@@ -513,6 +529,11 @@ func (w *CliWorld) finish() {
 }
 
 func (w *CliWorld) final() {
+	if w.K.Free {
+		w.done = true
+		w.K.Finish()
+		return
+	}
 	if (w.K.Parked() > 0 || w.pending() > 0) && w.tries < 400 {
 		w.tries++
 		w.K.At(w.K.Now()+30*sec, "final", w.final)
@@ -723,7 +744,13 @@ func sortedTimes(m map[[12]byte][]int64) [][12]byte {
 
 func (w *CliWorld) Run(maxSteps int) string {
 	w.start()
-	w.K.At(w.K.Now()+ms, "begin", func() { w.prev = w.K.Now(); w.scheduleNext() })
+	w.K.At(w.K.Now()+ms, "begin", func() {
+		if w.K.Free {
+			<-w.started // the only ordering between set-up and the first operation
+		}
+		w.prev = w.K.Now()
+		w.scheduleNext()
+	})
 	return w.K.Drive(maxSteps, func(now int64) {
 		if w.pendingSetup() {
 			return
@@ -742,7 +769,7 @@ func (w *CliWorld) pendingSetup() bool {
 func runCliWorld(t *testing.T, k *Kernel, p *Plan, rec *RunRecord) {
 	w := NewCliWorld(k, p)
 	reason := w.Run(maxStepsFor(p))
-	if reason == "stopped" {
+	if reason == "stopped" && !k.Free {
 		held, waiting := lockState()
 		for _, h := range held {
 			k.Violate(&Violation{Property: "C18", Class: "lock-held-at-idle", Key: kv("site", h), Detail: "lock still held after the client was closed, acquired at " + h})
